@@ -119,8 +119,33 @@ class Built:
         self.desc = copy.deepcopy(desc)
         self.objs: Dict[Tuple[int, ...], Any] = {}
         T.build(self.desc, self.objs)
+        self._churn()
         self.ident = {id(o): p for p, o in self.objs.items()}
         self.paths = [p for p, _ in T.nodes_of(self.desc)]
+
+    def _churn(self):
+        """(round 5) a history that leaves the tree as it is: "every sourced ancestor / descendant" is about the tree as it stands
+        after ANY history.  Removing / discarding an object that merely looks like a member (same idShort, another object - the
+        matching element of a second replica, say) is refused and changes nothing; the first item of a list is taken out and put
+        back in place."""
+        from basyx.aas import model
+        for p in sorted(self.objs):
+            o = self.objs[p]
+            if isinstance(o, model.SubmodelElementList):
+                if len(o.value) >= 2:
+                    x = o.value.pop(0)
+                    o.value.insert(0, x)
+                continue
+            for attr in ("submodel_element", "value", "statement", "annotation", "input_variable", "output_variable", "in_output_variable"):
+                ns = getattr(o, attr, None)
+                if isinstance(ns, model.NamespaceSet) and len(ns) >= 1:
+                    member = next(iter(ns))
+                    twin = model.Capability(member.id_short)
+                    try:
+                        ns.remove(twin)
+                    except KeyError:
+                        pass
+                    ns.discard(twin)
 
     def place(self, sources: List[str]):
         for p, s in zip(self.paths, sources):
